@@ -8,6 +8,7 @@ pub mod huffman;
 pub mod index;
 pub mod laws;
 pub mod order;
+pub mod scan;
 pub mod stack;
 
 pub fn replay(property: &str, engine: &str, case: &Value) -> Result<(), String> {
@@ -17,6 +18,7 @@ pub fn replay(property: &str, engine: &str, case: &Value) -> Result<(), String> 
         "codec" => codec::replay(case),
         "laws" => laws::replay(case),
         "order" => order::replay(case),
+        "scan" => scan::replay_c04(),
         "alloc" | "alloc-log" | "alloc-stack" => alloc::replay(engine, case),
         "index" => index::replay(case),
         _ => Err(format!("unknown engine {engine:?} in replay file")),
